@@ -7,6 +7,7 @@
 J=3; if [ "$1" = "-j" ]; then J=$2; shift; shift; fi
 LIST=("$@"); [ ${#LIST[@]} -eq 0 ] && LIST=($(ls -d "$VERIF_ROOT"/seeded/M*/))
 WT=$(mktemp -d /tmp/mregress-XXXX)
+cp -r "$VERIF_ROOT/lab" $WT/labsrc; export LAB_SRC=$WT/labsrc   # the lab as it is now, whatever is edited meanwhile
 one(){
   d=${1%/}; id=$(basename $d); w=$WT/$id
   checks=$(python3 -c "import json;print(' '.join(json.load(open('$d/meta.json'))['caught_by']))")
